@@ -44,6 +44,8 @@ def c04_projects(quick: bool, rng: random.Random) -> List[Dict[str, Any]]:
            or (p["meta"].get("form") == "plain" and p["meta"].get("consumers") in (["o"], ["o2"], ["o", "r"]))]
     ps += list(families.t1_base_chains())[:: (6 if quick else 1)] + list(families.t6_nested_packages())
     ps += list(families.t15_rebinding()) + list(families.t_c04_cycles())
+    ps += families.rnd2_corpus(quick)
+    ps += [p for p in families.t5_duplicates() if p["meta"].get("shape") == "move-then-redefine"]
     if not quick:
         ps += [families.random_project(rng, rng.randint(3, 5)) for _ in range(150)]
     return [p for p in ps if len(P.schedules(p)) <= 24]
@@ -228,6 +230,28 @@ def kf_definition_then_import(w: Dict[str, Any]) -> bool:
     return False
 
 
+def kf_moved_then_redefined(w: Dict[str, Any]) -> bool:
+    """Known finding: module R imports a name from module O, lists it in __all__ (so the object is moved to R) and LATER defines
+       a class / function of the same name: the moved object is superseded ('R.name 0'), but the alias left in O still says
+       'R.name', which is now the new definition: the name inside O, and every path through O, leads to R's own definition."""
+    if w.get("invariant") != "ResolvesRightOrNot" or not w.get("got_site"):
+        return False
+    mods = w.get("origin", {}).get("project", {}).get("mods", [])
+    ri, pc = w["got_site"]
+    if not (0 < ri <= len(mods)) or not (0 < pc <= len(mods[ri - 1]["ops"])):
+        return False
+    R = mods[ri - 1]
+    d = R["ops"][pc - 1]
+    if d["k"] not in ("class", "def") or not R["hasAll"] or d["n"] not in R["all"]:
+        return False
+    depth = 0
+    for op in R["ops"][:pc - 1]:
+        depth += 1 if op["k"] == "class" else -1 if op["k"] == "endclass" else 0
+        if depth == 0 and op["k"] in ("from", "star") and (op["k"] == "star" or op["as"] == d["n"]):
+            return True
+    return False
+
+
 def check_pybind_vs_cpython(ctx: Ctx, proj: Dict[str, Any], rows: List[Dict[str, Any]], pid: int, invalid: List[int] = ()) -> int:
     """PyBind.tla against CPython importing the generated files, for every entry order of the project (one for acyclic projects).
        For cyclic projects the orders in which the interpreter raises must be exactly those PyBind marks invalid."""
@@ -283,6 +307,7 @@ def _compare_entry(proj: Dict[str, Any], rows: List[Dict[str, Any]], o: Dict[str
 def run(ctx: Ctx) -> int:
     rng = random.Random(ctx.seed)
     ctx.register_matcher("definition-then-import-of-same-name", kf_definition_then_import)
+    ctx.register_matcher("reexported-then-redefined-in-reexporter", kf_moved_then_redefined)
     projs = c04_projects(ctx.quick, rng)
     counters: Dict[str, int] = collections.Counter()
     validated_names = 0
